@@ -60,6 +60,8 @@ impl<'a> ReMatcher<'a> {
         // initialize start pointer, paren cache and paren count
         self.set_paren_count(1);
         self.state.borrow_mut().anchored_match = anchored;
+        // the memo of zero-length matches belongs to one match attempt
+        self.state.borrow_mut().history = History::new();
         self.set_paren_start(0, i);
 
         // allocate backref arrays (unless optimizations indicate otherwise)
